@@ -390,7 +390,7 @@ def threads_derive(bases, ops, profile, nthreads, rounds, seed):
     the even threads repeatedly apply their modifier to it (and observe the last result), the
     odd threads read every accessor of the shared object in a random order.  Returns
     [[per thread: observation or exception] per base] of the last round; thread t uses
-    ops[(t // 2 + i) % len(ops)]."""
+    ops[(t // 4 + i) % len(ops)]."""
     import random
     import sys
     import threading
@@ -428,10 +428,14 @@ def threads_derive(bases, ops, profile, nthreads, rounds, seed):
                     if u is None:
                         res = None
                     elif tid % 2 == 0:
-                        op = ops[(tid // 2 + i) % len(ops)]
+                        # threads 0 and 2 (4 and 6, ...) apply the SAME modifier: what they get back may be one shared
+                        # object (the construction caches), which one thread re-derives while the other reads it
+                        op = ops[(tid // 4 + i) % len(ops)]
                         v = None
                         for _ in range(12):
                             v = apply_op(u, op[1], op[2:])
+                            for f in (lambda: v.raw_host, lambda: v.explicit_port, lambda: v.raw_user, lambda: v.raw_password):
+                                f()
                         res = _obs(v, profile)
                     else:
                         res = reader_obs(u, rng)
@@ -456,6 +460,53 @@ def threads_derive(bases, ops, profile, nthreads, rounds, seed):
         t.join()
     sys.setswitchinterval(old)
     return results
+
+
+def threads_shared_result(bases, ops, iters, nthreads, seed):
+    """Several threads apply the SAME modifier to the SAME object over and over and read the authority
+    accessors of what they get back (the construction caches may hand all of them one shared object).
+    Returns, per (base, op): [sequential observation, [observation or exception per thread]]."""
+    import sys
+    import threading
+    old = sys.getswitchinterval()
+    sys.setswitchinterval(1e-6)
+    out = []
+    try:
+        for b in bases:
+            for op in ops:
+                try:
+                    u = run_prog(b)[-1]
+                    ref = _obs(apply_op(u, op[1], op[2:]), 0)
+                except BaseException as e:  # noqa: B902
+                    out.append([_exn(e), []])
+                    continue
+                u = run_prog(b)[-1]
+                res = [None] * nthreads
+                gate = threading.Barrier(nthreads)
+
+                def worker(t):
+                    try:
+                        gate.wait()
+                        v = None
+                        for _ in range(iters):
+                            v = apply_op(u, op[1], op[2:])
+                            v.raw_host
+                            v.explicit_port
+                            v.raw_user
+                            v.raw_password
+                            str(v)
+                        res[t] = _obs(v, 0)
+                    except BaseException as e:  # noqa: B902
+                        res[t] = _exn(e)
+                ths = [threading.Thread(target=worker, args=(t,)) for t in range(nthreads)]
+                for th in ths:
+                    th.start()
+                for th in ths:
+                    th.join()
+                out.append([ref, res])
+    finally:
+        sys.setswitchinterval(old)
+    return out
 
 
 def threads_run(progs, profile, nthreads, rounds, seed):
@@ -548,6 +599,7 @@ def cache_api_probe(sizes, text):
 
 
 def register(fn):
+    fn(threads_shared_result)
     fn(observe_fresh)
     fn(cache_api_probe)
     fn(history_run)
